@@ -5,6 +5,8 @@
     the traced configuration, equals the traced entries, and trace-level identities between different assemblers
     (hypersingular = curl·curl × single layer, boundary operator between two grids = tested potential); all proved
     by unfolding + `ring`.
+The Maxwell assemblers and potentials are traced by props/asm_gen_mx.py, the Laplace-Beltrami sparse kernel by
+props/asm_gen_sparse.py (both called from `generate()` below; their modules are listed in Gen/AsmMatch.lean too).
 
 Configuration "same grid": elements e0=(0,1,2), e1=(1,3,2) (edge-adjacent to e0), e2=(4,5,6) (disjoint from both);
 2 regular quadrature points; spaces: p1 (nshape 3, local2global = vertex index), dp1 (3e+i), dp0 (e), all with symbolic
@@ -501,9 +503,18 @@ def generate():
         body += items + ["end", "end BemppVerif.AsmMatch", ""]
         changed.append(T.write_if_changed(os.path.join(LEAN, f"BemppVerif/Gen/{mod}.lean"), "\n".join(body)))
         imports.append(f"import BemppVerif.Gen.{mod}")
+    # Maxwell assemblers / potentials (props/asm_gen_mx.py) and the remaining sparse kernels (props/asm_gen_sparse.py):
+    # own trace files and theorem groups, same symbolic configuration and registries
+    from props import asm_gen_mx, asm_gen_sparse
+    mx_info, mx_thms, mx_imports = asm_gen_mx.generate(env)
+    sp_info, sp_thms, sp_imports = asm_gen_sparse.generate(env)
+    imports += mx_imports + sp_imports
+    thms += mx_thms + sp_thms
+    changed += mx_info.pop("changed") + sp_info.pop("changed")
     changed.append(T.write_if_changed(os.path.join(LEAN, "BemppVerif/Gen/AsmMatch.lean"),
                                       "-- GENERATED by props/asm_gen.py -- do not edit.\n" + "\n".join(imports) + "\n"))
-    return dict(entries=len(entries), theorems=len(thms), changed=changed, atoms=sorted(ar), groups=sorted(groups)), thms
+    return dict(entries=len(entries), theorems=len(thms), changed=changed, atoms=sorted(ar), groups=sorted(groups),
+                maxwell=mx_info, sparse=sp_info), thms
 
 
 if __name__ == "__main__":
